@@ -590,7 +590,8 @@ func genNode(r *common.Rand, n int, emit func(string)) {
 		emit(mkCase(false, store, true, defTTL, pre, thr, sch))
 	}
 	// the heartbeat discipline: claim, then renew every 30 s for a long time while another node keeps trying
-	for _, store := range []string{"hyr", "red", "dbl"} {
+	// on every backend (the stores with a real clock get the same programme without the waits)
+	for _, store := range []string{"hyr", "red", "dbl", "hyb", "hy1", "mem"} {
 		var ops0 []string
 		ops0 = append(ops0, "g 9 0")
 		var ops1 []string
@@ -599,9 +600,25 @@ func genNode(r *common.Rand, n int, emit func(string)) {
 		for i := 0; i < 8; i++ {
 			ops0 = append(ops0, "w")
 			ops1 = append(ops1, "g 9 0", "o")
-			sch = append(sch, [2]int64{1, 30000}, [2]int64{0, 0}, [2]int64{0, 1}, [2]int64{0, 1}, [2]int64{0, 1})
+			if tickable(store) {
+				sch = append(sch, [2]int64{1, 30000})
+			}
+			sch = append(sch, [2]int64{0, 0}, [2]int64{0, 1}, [2]int64{0, 1}, [2]int64{0, 1})
 		}
 		emit(mkCase(false, store, true, defTTL, nil, []thrSpec{{0, ops0}, {1, ops1}}, sch))
+		// two holders renewing in turn, a third node arriving after 4 lease periods
+		var a, b []string
+		a, b = append(a, "g 9 0"), append(b, "g 9 0")
+		sch2 := [][2]int64{{0, 0}, {0, 1}, {0, 1}}
+		for i := 0; i < 12; i++ {
+			a, b = append(a, "w"), append(b, "w")
+			if tickable(store) {
+				sch2 = append(sch2, [2]int64{1, 30000})
+			}
+			sch2 = append(sch2, [2]int64{0, 0}, [2]int64{0, 1})
+		}
+		sch2 = append(sch2, [2]int64{0, 2}, [2]int64{0, 2}, [2]int64{0, 2})
+		emit(mkCase(false, store, true, defTTL, nil, []thrSpec{{0, a}, {1, b}, {2, []string{"g 9 0"}}}, sch2))
 	}
 }
 
